@@ -1,0 +1,64 @@
+//go:build verif
+
+// Machine-checked contracts for this package (comment-only; compiled only with -tags verif,
+// and even then contributes no code).  Read by /verif/govc; see /verif/DESIGN.md.
+
+package conntrack
+
+//@ -- Idle time of an entry when judged at kernel time now.
+//@ spec func ctAge(now int64, e v4.ValueInterface) int64 = now - ctLastSeen(e)
+//@ spec func ctFins(dsr bool, d v4.EntryData) bool = (dsr && (d.A2B.FinSeen || d.B2A.FinSeen)) || (d.A2B.FinSeen && d.B2A.FinSeen)
+//@ spec func ctRst(d v4.EntryData) bool = d.A2B.RstSeen || d.B2A.RstSeen
+//@ spec func ctEst(d v4.EntryData) bool = d.A2B.SynSeen && d.A2B.AckSeen && d.B2A.SynSeen && d.B2A.AckSeen
+//@ -- "idle longer than the timeout for its protocol and state" (from the property statement):
+//@ -- TCP: reset seen -> TCPResetSeen; both FINs (one with DSR) -> TCPFinsSeen; established or DSR ->
+//@ -- TCPEstablished, or 120 s once a RST with residual traffic was recorded; otherwise TCPSynSent.
+//@ -- ICMP/ICMPv6 -> ICMPTimeout; UDP -> UDPTimeout; any other protocol -> GenericTimeout.
+//@ spec func ctTCPExpired(t timeouts.Timeouts, age int64, dsr bool, d v4.EntryData, rstResidual int64) bool =
+//@      (ctRst(d) && age > int64(t.TCPResetSeen)) || (ctFins(dsr, d) && age > int64(t.TCPFinsSeen))
+//@      || ((ctEst(d) || dsr) ? ((rstResidual != 0 && age > 120000000000) || age > int64(t.TCPEstablished)) : age > int64(t.TCPSynSent))
+//@ spec func ctExpired(t timeouts.Timeouts, now int64, proto uint8, e v4.ValueInterface) bool =
+//@      proto == 6 ? ctTCPExpired(t, ctAge(now, e), ctIsDSR(e), ctData(e), ctRSTResidual(e))
+//@      : ((proto == 1 || proto == 58) ? ctAge(now, e) > int64(t.ICMPTimeout)
+//@      : (proto == 17 ? ctAge(now, e) > int64(t.UDPTimeout) : ctAge(now, e) > int64(t.GenericTimeout)))
+//@ -- "finished": expired, or a TCP connection both of whose directions are closed
+//@ spec func ctFinished(t timeouts.Timeouts, now int64, proto uint8, e v4.ValueInterface) bool =
+//@      ctExpired(t, now, proto, e) || (proto == 6 && ctFins(ctIsDSR(e), ctData(e)) && !(ctRst(ctData(e)) && ctAge(now, e) > int64(t.TCPResetSeen)))
+
+//@ func entryDone
+//@   property C14
+//@   ensures !finishedOnly ==> (res1 <==> ctExpired(t, nowNanos, proto, entry))
+//@   ensures finishedOnly ==> (res1 <==> ctFinished(t, nowNanos, proto, entry))
+//@   assigns nothing
+
+//@ -- removal is judged by EntryExpired: true exactly when idle longer than the timeout for protocol and state
+//@ func EntryExpired
+//@   property C14
+//@   ensures res1 <==> ctExpired(t, nowNanos, proto, entry)
+//@   assigns nothing
+
+//@ func EntryFinished
+//@   property C14
+//@   ensures res1 <==> ctFinished(t, nowNanos, proto, entry)
+//@   ensures ctExpired(t, nowNanos, proto, entry) ==> res1
+//@   assigns nothing
+
+//@ -- Ghost record of the expiry judgement made during one LivenessScanner.Check call.
+//@ ghost ctJudged bool
+//@ ghost ctJudgedTrue bool
+//@ ghost ctJudgedEntry v4.ValueInterface
+
+//@ -- A Delete verdict is issued only after EntryExpired judged an entry expired at the scanner's cached
+//@ -- kernel time, and the timestamp handed to the kernel cleaner is that judged entry's last-seen time
+//@ -- (the value the cleaner compares before deleting).  For a NAT-forward key the judged entry is the
+//@ -- reverse entry; a forward entry whose reverse is gone is deleted without a judgement.
+//@ func (*LivenessScanner).Check
+//@   property C14
+//@   requires l != nil && !ctJudged
+//@   option safety off
+//@   ghost at call EntryExpired: ctJudged = true ; ctJudgedTrue = res1 ; ctJudgedEntry = entry ; check nowNanos == now ; check t == l.timeouts
+//@   ensures res0 == ScanVerdictDelete || res0 == ScanVerdictOK
+//@   ensures res0 == ScanVerdictDelete && ctJudged ==> ctJudgedTrue && res1 == ctLastSeen(ctJudgedEntry)
+//@   ensures res0 == ScanVerdictDelete && ctType(ctVal) != TypeNATForward ==> ctJudged && ctJudgedEntry == ctVal
+//@   ensures res0 == ScanVerdictDelete && !ctJudged ==> ctType(ctVal) == TypeNATForward
+//@   ensures res0 == ScanVerdictOK ==> res1 == ctLastSeen(ctVal)
